@@ -28,18 +28,39 @@ Theorem C08_duplicate_check_not_atomic_refuted :
   length (abs (fst (run 4 cfg_nodup s0 [OWrite 1 8 None 8 5 2; OWrite 1 7 None 8 5 1]))) = 1%nat.
 Proof. exact f12_interleaving_stores_both. Qed.
 
-(* "no operation deadlocks" is REFUTED for every channel capacity (finding F10): cap + 1 writers holding the
-   storage read lock while the worker needs the write lock reach a state from which nobody progresses *)
-Theorem C08_deadlock_reachable_refuted :
-  forall cap : N, 0 < cap ->
-    exists s, preach cap {| p_blocked_senders := 0; p_queue := 0; p_worker_waits_write := false |} s /\ deadlocked cap s.
-Proof. exact f10_deadlock_reachable. Qed.
-Theorem C08_deadlock_is_a_trap :
-  forall (cap : N) (s : proto), deadlocked cap s -> forall s', pstep cap s s' -> deadlocked cap s'.
-Proof. exact deadlocked_is_trap. Qed.
+(* "no operation deadlocks", for the lock / channel protocol of write and delete (Conc/Steps.v): since commit
+   62ff185 of the code the notifications are sent with try_send, and for EVERY channel capacity and every number of
+   writers no writer ever waits in send while it holds the storage lock, no reachable state is deadlocked, the queue
+   stays within the capacity and a worker waiting for the write lock is granted it. *)
+Theorem C08_no_writer_blocks_under_the_lock :
+  forall (cap : N) (s : proto), preach cap proto_init s -> p_blocked_senders s = 0.
+Proof. exact no_sender_ever_blocks. Qed.
+Theorem C08_no_deadlock :
+  forall (cap : N) (s : proto), preach cap proto_init s -> ~ deadlocked cap s.
+Proof. exact never_deadlocked. Qed.
+Theorem C08_queue_bounded :
+  forall (cap : N) (s : proto), preach cap proto_init s -> p_queue s <= cap.
+Proof. exact queue_bounded. Qed.
+Theorem C08_worker_gets_the_lock :
+  forall (cap : N) (s : proto), preach cap proto_init s -> p_worker_waits_write s = true ->
+    exists s', pstep cap s s' /\ p_worker_waits_write s' = false.
+Proof. exact worker_gets_the_lock. Qed.
+
+(* the protocol of the pinned code (send().await under the lock) deadlocked for every capacity: cap + 1 writers and
+   one rotation request (finding F10); kept as the record of what the repair removed *)
+Theorem C08_old_protocol_deadlocks :
+  forall cap : N, 0 < cap -> exists s, preach_old cap proto_init s /\ deadlocked cap s.
+Proof. exact f10_old_protocol_deadlocks. Qed.
+Theorem C08_old_deadlock_is_a_trap :
+  forall (cap : N) (s : proto), deadlocked cap s -> forall s', pstep_old cap s s' -> deadlocked cap s'.
+Proof. exact old_deadlocked_is_trap. Qed.
 
 Print Assumptions C08_every_interleaving_is_sequential.
 Print Assumptions C08_program_order_preserved.
 Print Assumptions C08_duplicate_check_not_atomic_refuted.
-Print Assumptions C08_deadlock_reachable_refuted.
-Print Assumptions C08_deadlock_is_a_trap.
+Print Assumptions C08_no_writer_blocks_under_the_lock.
+Print Assumptions C08_no_deadlock.
+Print Assumptions C08_queue_bounded.
+Print Assumptions C08_worker_gets_the_lock.
+Print Assumptions C08_old_protocol_deadlocks.
+Print Assumptions C08_old_deadlock_is_a_trap.
